@@ -138,6 +138,15 @@ def n1(model: Model, rep: Report):
         comp = as_single_comp(p, p.value) if p.value is not None else None
         while comp is not None and comp[0] == "var" and comp[3][0] == "comp":
             comp = comp[3]
+        pv = p.value
+        while pv is not None and pv[0] == "var" and len(pv) == 4:
+            pv = pv[3]
+        if pv is not None and pv[0] == "list" and pv[1] == (ins,) and p.cond != TRUE:
+            # a way out that hands the measurement back UNDRESSED: right only for an instruction without targets
+            rep.fail("C14.N2", "MeasurementNoiseDresserFactory.construct[undressed way out]", f.loc, found=f"returns [instruction] when [{show(p.cond)[:100]}]",
+                     required="every target's measurement carries its assignment error", what=f"when [{show(p.cond)[:100]}] the measurement instruction is returned as it came: its "
+                     "targets carry no assignment error", detail="undressed")
+            continue
         if comp is None or comp[0] != "comp" or comp[1] != "list" or len(comp[3]) != 1:
             raise AnalysisError(f"MeasurementNoiseDresserFactory.construct: the result is not one instruction list over the targets ({show(p.value) if p.value else None})")
         dom, conds = comp[3][0]
@@ -381,6 +390,8 @@ def n2_n3(model: Model, rep: Report, tier: str):
     rep.rule("C14.N3", "every string key that is looked up with instruction.name (duration_mapper, the dresser table) is a canonical Stim gate name, not an alias")
     M = model.cls("NoiseFactoryManager")
     expr = M.class_attrs.get("_factory")
+    if expr is None:
+        raise AnalysisError("NoiseFactoryManager: the default dresser is no longer the `_factory` literal (how the default tables reach the instance is not read)")
     ev = Evaluator(model)
     v = ev.expr(expr, Frame(None, M.module, {}, M, 0))
     if v[0] != "new" or v[1] != "StimNoiseDresserFactoryManager":
